@@ -6,6 +6,7 @@ import (
 	"fmt"
 	"go/constant"
 	"go/types"
+	"hash/fnv"
 	"math"
 	"math/big"
 	"sort"
@@ -362,7 +363,17 @@ func (u *Universe) tagOf(t types.Type) int {
 		u.tagTypes[n] = t
 		return n
 	}
-	n := len(u.prog.tagTable) + 1
+	// a tag that does not depend on the order in which types are met (queries must be reproducible
+	// for the verdict cache): a hash of the type's name, probed on the rare collision
+	h := fnv.New32a()
+	h.Write([]byte(key))
+	n := 1000 + int(h.Sum32()%1000000)
+	for {
+		if _, used := u.prog.tagTypes[n]; !used {
+			break
+		}
+		n++
+	}
 	u.prog.tagTable[key] = n
 	u.prog.tagTypes[n] = t
 	u.tags[key] = n
